@@ -78,7 +78,64 @@ package server
 // (or the default membership)"
 //@ func (*peer).interestedIn
 //@   requires peer != nil && path != nil
+//@   pure
 //@   claims at-return step
 //@   at-return requires ret0 ==> peer.rtmHandler.HasDefaultRouteTarget() || peer.rtmHandler.HasRouteTarget(ext)
 //@   at-return requires !ret0 ==> !peer.rtmHandler.HasDefaultRouteTarget()
 //@   loop 0 step !peer.rtmHandler.HasRouteTarget(ext)
+
+// =============================================================================================
+// C09 — loop prevention / split horizon when a route is offered to a peer
+// =============================================================================================
+//@ props C09
+//@ func (*peer).isIBGPPeer
+//@   pure
+//@   spec-only
+//@ func (*peer).AS
+//@   pure
+//@   spec-only
+//@ func (*peer).ID
+//@   pure
+//@   spec-only
+//@ func (*peer).routerID
+//@   pure
+//@   spec-only
+//@ func (*peer).isRouteReflectorClient
+//@   pure
+//@   spec-only
+//@ func (*peer).isRouteServerClient
+//@   pure
+//@   spec-only
+//@ func (*peer).allowAsPathLoopLocal
+//@   pure
+//@   spec-only
+//@ func (*peer).IsFamilyEnabled
+//@   pure
+//@   spec-only
+//@ func (*pConfAccess).ReadOnly
+//@   pure
+//@   spec-only
+//@ func isASLoop
+//@   pure
+//@   spec-only
+
+// from C09: "A route is never advertised back to the router it came from" (route-server clients and the RFC 4684
+// reflection of RT memberships to RR clients excepted): what comes out is the route itself, a withdrawal, or nothing
+//@ func (*peer).filterPathFromSourcePeer
+//@   requires peer != nil && path != nil && path.GetSource() != nil
+//@   assume-callee-frames
+//@   modifies nothing
+//@   claims at-return post frame
+//@   at-return requires ret0 == path ==> peer.routerID() != path.GetSource().ID || (!peer.isRouteServerClient() && peer.isRouteReflectorClient() && path.GetFamily() == bgp.RF_RTC_UC)
+//@   ensures result == nil || result == path || (fresh(result) && result.IsWithdraw)
+
+// from C09: "never advertised ... to an eBGP peer whose AS is already in its AS_PATH, or from a non-client iBGP
+// peer to another non-client iBGP peer"; with RT Constraint only routes the peer is interested in (C17)
+//@ func filterpath
+//@   requires peer != nil && peer.fsm != nil
+//@   requires path != nil ==> path.GetSource() != nil
+//@   requires old != nil ==> old.GetSource() != nil
+//@   claims at-return
+//@   at-return requires ret0 != nil && !ret0.IsWithdraw && peer.isIBGPPeer() && !ret0.IsLocal() ==> ret0.GetSource().AS != peer.AS() || ret0.GetSource().RouteReflectorClient || peer.isRouteReflectorClient()
+//@   at-return requires ret0 != nil && !ret0.IsWithdraw && !peer.isRouteServerClient() && isASLoop(peer, ret0) ==> ret0.IsLocal() && peer.allowAsPathLoopLocal()
+//@   at-return requires ret0 != nil && !ret0.IsWithdraw && peer.IsFamilyEnabled(bgp.RF_RTC_UC) && ret0.GetFamily() != bgp.RF_RTC_UC ==> peer.interestedIn(ret0)
